@@ -22,6 +22,8 @@ RULE = (
     'close pending messages are still delivered, then iteration ends and await/put raise '
     'StreamClosed. non-trivial = a signal landed, or the reference run; distinct = trace'
 )
+RULE = RULE + (' Further: the channel itself as the payload of a task, listeners of a closed channel at quiescence, payloads equal to everything, absorbing / negative clocks.')
+
 LEVEL_TEXT = (
     'Fault enumeration by runtime monitoring: per-consumer history checker over the recorded '
     'subscribe / put / receive / close events of the real Channel; signals injected at every '
